@@ -144,6 +144,11 @@ def check_program_scope(kc, name, text, scope, years, run_engine=True, zone_limi
         return rep
     # semantic check of the emitted zones with the generated tables
     truncated = set(z for z, notes in tz['notable_zones'].items() if any('truncated' in n for n in notes))
+    # a truncation note on a policy (AT / SAVE truncated to the granularity) concerns every zone that uses the policy
+    tpol = set(p for p, notes in tz['notable_policies'].items() if any('truncated' in n for n in notes))
+    for z, eras in tz['zones_map'].items():
+        if any(e.get('rules') in tpol for e in eras):
+            truncated.add(z)
     shadow = shadow_tree(kc.wd, tag, scope, outdir)
     wd2 = os.path.join(kc.wd, 'ir_' + tag)
     os.makedirs(wd2)
@@ -242,7 +247,7 @@ def mutate_source(text, rnd):
                 f[6] = rnd.choice(['lastSun', 'lastSat', 'Sun>=1', 'Sun>=8', 'Fri>=15', 'Sat>=23', 'Sun<=25', 'Mon<=14', '1', '15', '28'])
             elif k == 'save':
                 if f[8] not in ('0', '0:00'):
-                    f[8] = rnd.choice(['1:00', '0:30', '2:00', '0:20', '1:30'])
+                    f[8] = rnd.choice(['1:00', '0:30', '2:00', '0:45', '1:30'])
                 else:
                     continue
             else:
